@@ -287,3 +287,32 @@ case('benign-rename-locals', ['C01', 'C03', 'C07'], [],
            "            let mut candidate = q_near.clone();\n            if min_dist > self.max_distance {\n                let frac = self.max_distance / min_dist;\n                pd.space.interpolate(q_near, &q_rand, frac, &mut candidate);\n            } else {\n                candidate = q_rand;\n            }\n            let q_new = candidate;\n\n            // 5. Check if the motion to q_new is valid\n            if self.check_motion(q_near, &q_new) {\n                // 6. Add q_new to the tree\n                let new_node = Node {\n                    state: q_new.clone(),"))
 case('benign-so2-nan-isnan', ['C12'], [],
      (RV, "                    if !(bound.0 < bound.1) {", "                    if !(bound.1 > bound.0) {"))
+
+# ---------------------------------------------------------------- more benign refactors (must stay silent)
+TREE_PROPS = ['C01', 'C02', 'C03', 'C05', 'C06', 'C07', 'C08', 'C15', 'C16', 'C17']
+case('benign-rename-check-motion', TREE_PROPS, [],
+     (RRT, "    fn check_motion(&self, from: &S, to: &S) -> bool {", "    fn is_motion_valid(&self, from: &S, to: &S) -> bool {"),
+     (RRT, "            if self.check_motion(q_near, &q_new) {", "            if self.is_motion_valid(q_near, &q_new) {"))
+case('benign-steer-min', TREE_PROPS, [],
+     (RRT, "            if min_dist > self.max_distance {\n                // If q_rand is too far, interpolate to a point at max_distance\n                let t = self.max_distance / min_dist;\n                pd.space.interpolate(q_near, &q_rand, t, &mut q_new);\n            } else {\n                // If q_rand is close enough, just use it as q_new\n                q_new = q_rand;\n            }",
+           "            let t = (self.max_distance / min_dist).min(1.0);\n            pd.space.interpolate(q_near, &q_rand, t, &mut q_new);"))
+case('benign-nearest-enumerate', TREE_PROPS, [],
+     (RRT, "            for i in 1..self.tree.len() {\n                let dist = pd.space.distance(&self.tree[i].state, &q_rand);", "            for (i, node) in self.tree.iter().enumerate().skip(1) {\n                let dist = pd.space.distance(&node.state, &q_rand);"))
+case('benign-accessor', TREE_PROPS, [],
+     (RRT, "    fn reconstruct_path(&self, start_node_idx: usize) -> Path<S> {", "    /// Number of nodes currently in the tree.\n    pub fn tree_size(&self) -> usize {\n        self.tree.len()\n    }\n\n    fn reconstruct_path(&self, start_node_idx: usize) -> Path<S> {"))
+case('benign-reorder-clock', TREE_PROPS, [],
+     (RRT, "        let mut rng = self\n            .rng\n            .take()\n            .unwrap_or_else(|| Box::new(StdRng::from_os_rng()));\n        let start_time = Instant::now();", "        let start_time = Instant::now();\n        let mut rng = self\n            .rng\n            .take()\n            .unwrap_or_else(|| Box::new(StdRng::from_os_rng()));"))
+case('benign-gate-on-root', TREE_PROPS, [],
+     (RRT, "        if !vc.is_valid(&pd.start_states[0]) {", "        if !vc.is_valid(&self.tree[0].state) {"))
+case('benign-prm-le-radius', ['C01', 'C03', 'C05', 'C18', 'C08', 'C06'], [],
+     (PRM, "                    if dist < self.connection_radius && self.check_motion(&q_rand, &other_state) {", "                    if dist <= self.connection_radius && self.check_motion(&q_rand, &other_state) {"))
+case('benign-prm-iter-start-connections', ['C01', 'C02', 'C03', 'C05', 'C18', 'C08', 'C06'], [],
+     (PRM, "        for idx in &start_connections {\n            queue.push_back(*idx);\n            parent_map.insert(*idx, None);\n            visited[*idx] = true;\n        }", "        for &root in start_connections.iter() {\n            queue.push_back(root);\n            parent_map.insert(root, None);\n            visited[root] = true;\n        }"))
+case('benign-so3-sampler-satisfies', ['C11', 'C06', 'C08'], [],
+     (SO3, "                let distance = self.distance(center_rotation, &random_quat);\n                if distance <= *max_angle {\n                    return Ok(random_quat);", "                if self.satisfies_bounds(&random_quat) {\n                    return Ok(random_quat);"))
+case('benign-rv-explicit-isnan', ['C12', 'C11'], [],
+     (RV, "                    #[allow(clippy::neg_cmp_op_on_partial_ord)]\n                    if !(bound.0 < bound.1) {", "                    if bound.0.is_nan() || bound.1.is_nan() || bound.0 >= bound.1 {"))
+case('benign-rrtstar-cost-local', ['C15', 'C17', 'C03', 'C05'], [],
+     (RRTS, "                    let mutable_neighbour_node = &mut self.tree[neighbour_idx];\n                    mutable_neighbour_node.parent_index = Some(new_node_index);\n                    mutable_neighbour_node.cost = cost_via_new_node;", "                    let rewired = &mut self.tree[neighbour_idx];\n                    rewired.cost = cost_via_new_node;\n                    rewired.parent_index = Some(new_node_index);"))
+case('benign-connect-lt', ['C16', 'C02', 'C01'], [],
+     (RRTC, "                if self.start_tree.len() <= self.goal_tree.len() {", "                if self.start_tree.len() < self.goal_tree.len() + 1 {"))
